@@ -3,9 +3,17 @@ C10 — no request or response can make validation of a valid document panic.
 
 Full-strength goal (DESIGN §4):
     valid_doc_no_panic : DocValid d → ∀ traffic, outcome d traffic ≠ panic ∧ outcome d traffic ≠ diverge
-One deviation is left on the current tree, so what is proved is `valid_doc_no_panic_partial` under the
-decidable exclusion `ExclC10`:
-  F-C10-1  UnguardedRecursion  (DESIGN §7 #6, open)  `A: {allOf:[{$ref:A}]}` → unbounded recursion
+Four deviations are left on the current tree, so what is proved is `valid_doc_no_panic_partial` under the
+decidable exclusions `ExclOp` (document) and `HugeIndexReq`, `UncopyableReq/Resp`, `UnencodableReq/Resp` (traffic):
+  F-C10-1  UnguardedRecursion    (DESIGN §7 #6, open)  `A: {allOf:[{$ref:A}]}` → unbounded recursion
+  F-C10-8  HugeArrayIndex        (open)  `GET /a?p[b][2000000000]=1` against a deepObject parameter with an array property:
+           `sliceMapToSlice` builds every element up to the largest index (2.7 GB and 5 s for index 2·10⁷; never ends
+           for 9223372036854775807)
+  F-C10-7  UncopyableYamlKey     (open)  a YAML body `~: 1` (or `.nan: 1`) against a schema with oneOf/anyOf: `deepcopy.Copy`
+           of the decoded value panics inside `ValidateRequest` / `ValidateResponse` (reflect on a zero Value)
+  F-C10-6  UnencodableErrorValue (open)  the error returned for `GET /a?q=NaN&q=1` (array of numbers, maxItems 1) or for a
+           YAML body `1: x` carries a value `encoding/json` refuses; `SchemaError.Error()` panics on the encoder's error.
+           The validation functions themselves return normally: only the error-text conjuncts carry this exclusion.
 Four more classes were found while this check was built and have since been repaired in the repository;
 their theorems are now at full strength and their witness inputs are regression cases in corpus/C10:
   F-C10-2 (8654816) legacy router, request path spells a non-matching template → `legacyFindRoute_no_panic`
@@ -16,6 +24,8 @@ plus the translator obligation `all_sites_discharged` over the regenerated panic
 -/
 import KinModel.PanicSites
 import KinModel.Gen.PanicSites
+import KinModel.MapRanges
+import KinModel.Gen.MapRanges
 import KinModel.NoPanic.Server
 import KinModel.NoPanic.Router
 import KinModel.NoPanic.Recursion
@@ -26,9 +36,6 @@ open KinModel.NoPanic KinModel.NoPanic.Traffic KinModel.NoPanic.Router
 
 /-! ## T: the regenerated panic-site table -/
 
-/-- the extractor could read every code shape it met -/
-theorem all_sites_recognised : ∀ r ∈ Gen.panicSites, PanicSites.recognised r = true := by decide
-
 /-- every potentially panicking operation reachable from the traffic entry points is either guarded
     syntactically or discharged by a named lemma / library contract / open finding with the same
     (file, function, kind, count). A new unguarded site, or a guard that disappears, breaks this. -/
@@ -37,9 +44,41 @@ theorem all_sites_discharged_table : PanicSites.allDischarged PanicSites.expecta
 theorem all_sites_discharged : ∀ r ∈ Gen.panicSites, r.discharged PanicSites.expectations = true :=
   PanicSites.discharged_of_all all_sites_discharged_table
 
-/-- no row is discharged as an open finding any more (F-C10-3 and F-C10-4 are repaired) -/
+/-- the extractor could read every code shape it met (an `unrecognised` row is never discharged) -/
+theorem all_sites_recognised : ∀ r ∈ Gen.panicSites, PanicSites.recognised r = true :=
+  fun r hr => PanicSites.recognised_of_discharged (all_sites_discharged r hr)
+
+/-- no stale expectation: every hand-written entry still discharges a row of the regenerated table -/
+theorem all_expectations_used : PanicSites.allUsed PanicSites.expectations Gen.panicSites = true := by decide
+
+/-- exactly one row is discharged as an open finding: the two `panic(err)` of `SchemaError.Error` (F-C10-6; the
+    rows of F-C10-3 and F-C10-4 are guarded in the code since their repair) -/
 theorem open_finding_rows :
-    PanicSites.openFindingRows PanicSites.expectations Gen.panicSites = [] := by decide
+    PanicSites.openFindingRows PanicSites.expectations Gen.panicSites = [("SchemaError.Error", "F-C10-6")] := by decide
+
+/-! ## T2: the regenerated map-range table (map iteration order) -/
+
+/-- every `range` over a map in the functions reachable from the traffic entry points is sorted first, of an
+    order-free shape, or explained by hand with the same (file, function, count). A new unsorted loop breaks this. -/
+theorem all_map_ranges_discharged_table :
+    MapRanges.allDischarged MapRanges.expectations Gen.mapRanges = true := by decide
+
+theorem all_map_ranges_discharged : ∀ r ∈ Gen.mapRanges, r.discharged MapRanges.expectations = true :=
+  MapRanges.discharged_of_all all_map_ranges_discharged_table
+
+theorem all_map_ranges_recognised : ∀ r ∈ Gen.mapRanges, MapRanges.recognised r = true :=
+  fun r hr => MapRanges.recognised_of_discharged (all_map_ranges_discharged r hr)
+
+theorem all_map_range_expectations_used : MapRanges.allUsed MapRanges.expectations Gen.mapRanges = true := by decide
+
+/-- no loop's order decides between a panic and a normal return (DESIGN #35 is repaired) -/
+theorem no_order_dependent_panic :
+    MapRanges.openFindingRows MapRanges.expectations Gen.mapRanges = [] := by decide
+
+/-- the loops whose order is visible in the verdict, the route or the error text (not in panics): exactly these -/
+theorem order_visible_rows :
+    MapRanges.panicFreeRows MapRanges.expectations Gen.mapRanges =
+      ["permutePart", "NewRouter", "UrlencodedBodyDecoder", "buildResObj", "makeObject", "urlValuesDecoder.DecodeObject"] := by decide
 
 /-! ## Server.MatchRawURL -/
 
@@ -142,18 +181,52 @@ theorem guarded_recursion_terminates (own : Bool) (v : Recursion.J) :
 theorem isEmpty_still_diverges (fuel : Nat) : Recursion.isEmpty (Recursion.ΓL false) fuel (.ref 0) = .diverge :=
   (Recursion.isEmpty_diverges fuel).1
 theorem isEmpty_without_subschemas_answers (Γ : Recursion.Env) (own : Bool) (fuel : Nat) :
-    Recursion.isEmpty Γ (fuel + 1) (.node own [] none) = .ok (!own) := Recursion.isEmpty_no_sub Γ own fuel
+    Recursion.isEmpty Γ (fuel + 1) (.node own none [] [] none) = .ok (!own) := Recursion.isEmpty_no_sub Γ own fuel
 
+/-- the same defect through the other unguarded positions: `A: {not: {$ref: A}}`, `A: {anyOf: [{$ref: A}]}` -/
+theorem unguarded_not_diverges (v : Recursion.J) (fuel : Nat) :
+    Recursion.visit Recursion.ΓN fuel (.ref 0) v = .diverge := (Recursion.not_cycle_diverges v fuel).1
+theorem unguarded_anyOf_diverges (v : Recursion.J) (fuel : Nat) :
+    Recursion.visit Recursion.ΓY fuel (.ref 0) v = .diverge := (Recursion.anyOf_cycle_diverges v fuel).1
+
+/-- GENERAL (every environment, every schema, every value): when the unguarded references — those not under
+    `items` — can be ranked, i.e. form no cycle, the validator decides, and the decision is the same for every
+    larger amount of fuel: no unbounded recursion outside F-C10-1 -/
+theorem guarded_recursion_decided (Γ : Recursion.Env) (rk : Nat → Nat) (hR : Recursion.Ranked Γ rk)
+    (s : Recursion.S) (v : Recursion.J) : ∃ n b, ∀ m, n ≤ m → Recursion.visit Γ m s v = .ok b :=
+  Recursion.ranked_never_diverges Γ rk hR v s
+
+/-- the decidable form the driver evaluates: `guardedB defs` (ranks computed by relaxation and then checked) is a
+    sufficient condition; `ExclRec defs := !guardedB defs` is the exclusion of F-C10-1 on this fragment -/
+def ExclRec (defs : List Recursion.S) : Bool := !Recursion.guardedB defs
+
+theorem guarded_recursion_decided_partial (defs : List Recursion.S) (hx : ExclRec defs = false)
+    (s : Recursion.S) (v : Recursion.J) : ∃ n b, ∀ m, n ≤ m → Recursion.visit (Recursion.envOf defs) m s v = .ok b :=
+  Recursion.guardedB_sound defs (by simpa [ExclRec] using hx) v s
+
+/-- the check separates the witnesses: the three unguarded self-references are excluded, the guarded ones and a
+    two-definition chain are not; the depth-bounded cycle search of the driver agrees on them -/
 theorem unguarded_cycle_detected :
-    Recursion.hasUnguardedCycle [.node true [.ref 0] none] = true ∧
-    Recursion.hasUnguardedCycle [.node false [.ref 0] none] = true ∧
-    Recursion.hasUnguardedCycle [.node false [] (some (.ref 0))] = false := by decide
+    ExclRec [.node true none [] [.ref 0] none] = true ∧ ExclRec [.node false none [] [.ref 0] none] = true ∧
+    ExclRec [.node false (some (.ref 0)) [] [] none] = true ∧ ExclRec [.node false none [.leaf true, .ref 0] [] none] = true ∧
+    ExclRec [.node false none [] [] (some (.ref 0))] = false ∧
+    ExclRec [.node false none [] [.ref 1] (some (.ref 0)), .node true (some (.leaf false)) [.leaf true] [] (some (.ref 0))] = false ∧
+    Recursion.hasUnguardedCycle [.node true none [] [.ref 0] none] = true ∧
+    Recursion.hasUnguardedCycle [.node false none [] [.ref 0] none] = true ∧
+    Recursion.hasUnguardedCycle [.node false none [] [] (some (.ref 0))] = false := by decide
+
+/-- non-vacuity of the general theorem: a two-definition environment with a guarded cycle and an unguarded chain -/
+example : ∃ n b, ∀ m, n ≤ m → Recursion.visit
+    (Recursion.envOf [.node false none [] [.ref 1] (some (.ref 0)), .node true (some (.leaf false)) [.leaf true] [] (some (.ref 0))])
+    m (.ref 0) (.arr [.num 1, .arr [.num 2]]) = .ok b :=
+  guarded_recursion_decided_partial _ (by decide) _ _
 
 /-! ## request, response, error conversion -/
 
 theorem validateParameter_no_panic_partial (p : ParamM) (b : Bits) (hwf : p.wf = true)
     (hu1 : ∀ s, p.schema = some s → s.unguarded = false)
-    (hu2 : ∀ m s, p.jsonMedia = some m → m.schema = some s → s.unguarded = false) :
+    (hu2 : ∀ m s, p.jsonMedia = some m → m.schema = some s → s.unguarded = false)
+    (hcf : b.copyFails = false) (hhi : (p.isQuery && b.hugeIndex) = false) :
     (validateParameter p b).bad = false := by
   unfold ParamM.wf at hwf
   simp only [Bool.and_eq_true, Bool.not_eq_true'] at hwf
@@ -167,7 +240,7 @@ theorem validateParameter_no_panic_partial (p : ParamM) (b : Bits) (hwf : p.wf =
       split
       · split
         · rfl
-        · exact afterDecode_not_bad _ _ _ (by simp)
+        · exact afterDecode_not_bad _ _ _ (by simp) (by simpa using hcf)
       · split
         · rfl
         · split
@@ -182,7 +255,7 @@ theorem validateParameter_no_panic_partial (p : ParamM) (b : Bits) (hwf : p.wf =
                 simp only
                 split
                 · rfl
-                · exact afterDecode_not_bad _ _ _ (by simp)
+                · exact afterDecode_not_bad _ _ _ (by simp) hcf
               | some s =>
                 simp only
                 have hres : s.resolved = true := by simpa [hj, MediaM.wf, hms, SchemaM.wf] using hm
@@ -190,20 +263,22 @@ theorem validateParameter_no_panic_partial (p : ParamM) (b : Bits) (hwf : p.wf =
                 simp only [hres, Bool.not_true, Bool.false_eq_true, if_false]
                 split
                 · rfl
-                · exact afterDecode_not_bad _ _ _ (by intro x hx'; cases hx'; exact ⟨hres, hung⟩)
+                · exact afterDecode_not_bad _ _ _ (by intro x hx'; cases hx'; exact ⟨hres, hung⟩) hcf
     · cases hsc : p.schema with
       | none => rfl
       | some s =>
         simp only
         have hres : s.resolved = true := by simpa [hsc, SchemaM.wf] using hs
         have hung := hu1 s hsc
-        simp only [hres, Bool.not_true, Bool.false_eq_true, if_false]
+        have hhi' : ¬ (p.isQuery = true ∧ b.hugeIndex = true) := by
+          intro hq; simp [hq.1, hq.2] at hhi
+        simp only [hres, Bool.not_true, Bool.false_eq_true, if_false, hhi']
         split
         · rfl
-        · exact afterDecode_not_bad _ _ _ (by intro x hx'; cases hx'; exact ⟨hres, hung⟩)
+        · exact afterDecode_not_bad _ _ _ (by intro x hx'; cases hx'; exact ⟨hres, hung⟩) hcf
 
 theorem validateBody_no_panic_partial (rb : BodyM) (b : BodyBits) (hwf : rb.wf = true)
-    (hu : rb.content.any MediaM.unguarded = false) : (validateBody rb b).bad = false := by
+    (hu : rb.content.any MediaM.unguarded = false) (hcf : b.bits.copyFails = false) : (validateBody rb b).bad = false := by
   unfold BodyM.wf at hwf
   simp only [Bool.and_eq_true, Bool.not_eq_true'] at hwf
   obtain ⟨hv, hc⟩ := hwf
@@ -234,10 +309,10 @@ theorem validateBody_no_panic_partial (rb : BodyM) (b : BodyBits) (hwf : rb.wf =
           simp only [hres, Bool.not_true, Bool.false_eq_true, if_false]
           split
           · rfl
-          · exact visit_not_bad _ _ hres hung
+          · exact visit_not_bad _ _ hres hung hcf
 
 theorem validateHeader_no_panic_partial (h : HeaderM) (b : Bits) (hwf : h.wf = true)
-    (hu : ∀ s, h.schema = some s → s.unguarded = false) : (validateHeader h b).bad = false := by
+    (hu : ∀ s, h.schema = some s → s.unguarded = false) (hcf : b.copyFails = false) : (validateHeader h b).bad = false := by
   unfold HeaderM.wf at hwf
   simp only [Bool.and_eq_true, Bool.not_eq_true'] at hwf
   obtain ⟨hv, hs⟩ := hwf
@@ -252,7 +327,7 @@ theorem validateHeader_no_panic_partial (h : HeaderM) (b : Bits) (hwf : h.wf = t
     split
     · rfl
     · split
-      · exact visit_not_bad _ _ hres (hu s hsc)
+      · exact visit_not_bad _ _ hres (hu s hsc) hcf
       · split <;> rfl
 
 /-- the decidable exclusion of the request/response part -/
@@ -261,7 +336,12 @@ def ExclOp (op : OpM) : Bool := UnguardedRecursion op
 /-- `ValidateRequest` on a valid document outside the exclusion: for ALL traffic (all decoder and
     validator answers) the outcome is success or an error, never a panic or unbounded recursion -/
 theorem validateRequest_no_panic_partial (op : OpM) (t : ReqTraffic) (hv : DocValid op = true)
-    (hx : ExclOp op = false) : (validateRequest op t).bad = false := by
+    (hx : ExclOp op = false) (hcp : UncopyableReq op t = false) (hhi : HugeIndexReq op t = false) :
+    (validateRequest op t).bad = false := by
+  unfold HugeIndexReq at hhi
+  unfold UncopyableReq at hcp
+  simp only [Bool.or_eq_false_iff] at hcp
+  obtain ⟨hcp1, hcp2⟩ := hcp
   unfold DocValid at hv
   simp only [Bool.and_eq_true] at hv
   obtain ⟨⟨hp, hb⟩, _⟩ := hv
@@ -282,6 +362,8 @@ theorem validateRequest_no_panic_partial (op : OpM) (t : ReqTraffic) (hv : DocVa
     apply validateParameter_no_panic_partial _ _ hwf
     · intro s hs; simpa [hs] using hun.1
     · intro m s hm hs; simpa [hm, MediaM.unguarded, hs] using hun.2
+    · exact Bool.eq_false_iff.mpr ((List.any_eq_false.mp hcp1) ip hip)
+    · exact Bool.eq_false_iff.mpr ((List.any_eq_false.mp hhi) ip hip)
   · cases hbody : op.body with
     | none => simp [hbody] at ho
     | some rb =>
@@ -290,9 +372,13 @@ theorem validateRequest_no_panic_partial (op : OpM) (t : ReqTraffic) (hv : DocVa
       apply validateBody_no_panic_partial
       · simpa [hbody] using hb
       · simpa [hbody] using hub
+      · exact hcp2
 
 theorem validateResponse_no_panic_partial (op : OpM) (t : RespTraffic) (hv : DocValid op = true)
-    (hx : ExclOp op = false) : (validateResponse op t).bad = false := by
+    (hx : ExclOp op = false) (hcp : UncopyableResp op t = false) : (validateResponse op t).bad = false := by
+  unfold UncopyableResp at hcp
+  simp only [Bool.or_eq_false_iff] at hcp
+  obtain ⟨hcp1, hcp2⟩ := hcp
   unfold DocValid at hv
   simp only [Bool.and_eq_true] at hv
   obtain ⟨_, hr⟩ := hv
@@ -321,16 +407,17 @@ theorem validateResponse_no_panic_partial (op : OpM) (t : RespTraffic) (hv : Doc
         simp only [Bool.or_eq_false_iff] at hun
         split
         · rfl
-        · have hh : (seq ((zipIdx r.headers 0).map (fun ih => validateHeader ih.2 (t.headerBits ih.1)))).bad = false := by
+        · have hh : (seq false ((zipIdx r.headers 0).map (fun ih => validateHeader ih.2 (t.headerBits ih.1)))).bad = false := by
             apply seq_not_bad
             intro o ho
             simp only [List.mem_map] at ho
             obtain ⟨ih, hih, rfl⟩ := ho
             have hmemh := mem_zipIdx _ _ _ hih
             apply validateHeader_no_panic_partial _ _ (List.all_eq_true.mp hwf.1 ih.2 hmemh)
-            intro s hs
-            have := (List.any_eq_false.mp hun.1) ih.2 hmemh
-            simpa [hs] using this
+            · intro s hs
+              have := (List.any_eq_false.mp hun.1) ih.2 hmemh
+              simpa [hs] using this
+            · exact Bool.eq_false_iff.mpr ((List.any_eq_false.mp (Bool.eq_false_iff.mpr ((List.any_eq_false.mp hcp1) r hmem))) ih hih)
           split
           · split
             · rfl
@@ -357,7 +444,7 @@ theorem validateResponse_no_panic_partial (op : OpM) (t : RespTraffic) (hv : Doc
                     simp only [hres, Bool.not_true, Bool.false_eq_true, if_false]
                     split
                     · rfl
-                    · exact visit_not_bad _ _ hres hung
+                    · exact visit_not_bad _ _ hres hung hcp2
           · exact hh
 
 /-- `ConvertErrors` never panics on the errors the validators build (enum errors carry their schema) -/
@@ -383,27 +470,57 @@ structure Scenario where
   req : ReqTraffic
   resp : RespTraffic
   errs : List ReqErrM        -- the request errors handed to ConvertErrors
+  details : Bool             -- !SchemaErrorDetailsDisabled and no message customizer that answers
 
 def ExclC10 (s : Scenario) : Bool := ExclOp s.op
 
-/-- C10 on the model, partial: a valid document without an unguarded reference cycle (F-C10-1, the one open
-    finding) cannot be made to panic or recurse without bound by any traffic through the legacy router, the
-    gorilla router's port branch, ValidateRequest, ValidateResponse and ConvertErrors -/
+/-- the text of the error `ValidateRequest` returned (`err.Error()`, also what `http.Error(w, err.Error(), 400)` and
+    the `ValidationErrorEncoder` write) can be produced — unless the traffic made a decoder produce a value that
+    cannot be JSON-encoded (F-C10-6) -/
+theorem requestErrorText_no_panic_partial (op : OpM) (t : ReqTraffic) (details : Bool) (hv : DocValid op = true)
+    (hx : ExclOp op = false) (hcp : UncopyableReq op t = false) (hhi : HugeIndexReq op t = false)
+    (hj : UnencodableReq op t = false) :
+    (errorText details (validateRequest op t)).bad = false :=
+  errorText_of_printable _ _ (validateRequest_no_panic_partial op t hv hx hcp hhi) (validateRequest_printable op t hj)
+
+theorem responseErrorText_no_panic_partial (op : OpM) (t : RespTraffic) (details : Bool) (hv : DocValid op = true)
+    (hx : ExclOp op = false) (hcp : UncopyableResp op t = false) (hj : UnencodableResp op t = false) :
+    (errorText details (validateResponse op t)).bad = false :=
+  errorText_of_printable _ _ (validateResponse_no_panic_partial op t hv hx hcp) (validateResponse_printable op t hj)
+
+/-- with `SchemaErrorDetailsDisabled` the text is always produced (full strength, no exclusion for F-C10-6) -/
+theorem errorText_without_details (o : Out) (h : o.bad = false) : (errorText false o).bad = false := by
+  cases o with
+  | ok => rfl
+  | err p => cases p <;> rfl
+  | panic s => simp [Out.bad] at h
+  | diverge => simp [Out.bad] at h
+  | exhaust => simp [Out.bad] at h
+
+/-- C10 on the model, partial: a valid document without an unguarded reference cycle (F-C10-1) cannot be made to
+    panic or recurse without bound by any traffic through the legacy router, the gorilla router's port branch,
+    ValidateRequest, ValidateResponse and ConvertErrors; and the returned errors can be printed unless a decoded
+    value is not JSON-encodable (F-C10-6) -/
 theorem valid_doc_no_panic_partial (s : Scenario) (hv : DocValid s.op = true) (hx : ExclC10 s = false)
     (herr : ∀ e ∈ s.errs, ErrWF e = true) :
     (∀ site, legacyFindRoute s.servers s.paths s.method s.rawURL s.urlPath ≠ .panic site) ∧
     (∀ u ∈ s.servers, gorillaPortBranch u ≠ .panic) ∧
-    (validateRequest s.op s.req).bad = false ∧
-    (validateResponse s.op s.resp).bad = false ∧
-    (∀ e ∈ s.errs, (convertErrors e).bad = false) :=
+    (UncopyableReq s.op s.req = false → HugeIndexReq s.op s.req = false → (validateRequest s.op s.req).bad = false) ∧
+    (UncopyableResp s.op s.resp = false → (validateResponse s.op s.resp).bad = false) ∧
+    (∀ e ∈ s.errs, (convertErrors e).bad = false) ∧
+    (UncopyableReq s.op s.req = false → HugeIndexReq s.op s.req = false → UnencodableReq s.op s.req = false →
+      (errorText s.details (validateRequest s.op s.req)).bad = false) ∧
+    (UncopyableResp s.op s.resp = false → UnencodableResp s.op s.resp = false →
+      (errorText s.details (validateResponse s.op s.resp)).bad = false) :=
   ⟨legacyFindRoute_no_panic _ _ _ _ _, fun u _ => gorillaPortBranch_no_panic u,
    validateRequest_no_panic_partial _ _ hv hx, validateResponse_no_panic_partial _ _ hv hx,
-   fun e he => convertErrors_no_panic e (herr e he)⟩
+   fun e he => convertErrors_no_panic e (herr e he),
+   requestErrorText_no_panic_partial _ _ _ hv hx, responseErrorText_no_panic_partial _ _ _ hv hx⟩
 
 /-! ## witnesses inside the exclusion, non-vacuity outside -/
 
 def sOK : SchemaM := ⟨true, false⟩
-def bitsAny : Bits := ⟨true, false, false, false, false⟩
+def bitsAny : Bits := ⟨true, false, false, false, false, true, false, false⟩
 
 /-- regression of F-C10-4: content parameter whose media type has no schema, parameter present in the request:
     decoded, not validated -/
@@ -415,7 +532,30 @@ theorem content_param_no_schema_regression :
 theorem unguarded_body_witness :
     let op : OpM := ⟨[], some ⟨false, false, [⟨some ⟨true, true⟩⟩]⟩, []⟩
     DocValid op = true ∧ ExclOp op = true ∧
-    validateRequest op ⟨fun _ => bitsAny, ⟨false, some 0, bitsAny⟩⟩ = .diverge := by decide
+    validateRequest op ⟨false, fun _ => bitsAny, ⟨false, some 0, bitsAny⟩⟩ = .diverge := by decide
+
+/-- witness F-C10-6: `GET /a?q=NaN&q=1`, q an array of numbers with maxItems 1 — the document is valid and free of
+    reference cycles, `ValidateRequest` returns an error normally, and producing its text panics -/
+theorem unencodable_value_witness :
+    let op : OpM := ⟨[⟨false, true, false, false, some sOK, false, 0, none⟩], none, []⟩
+    let t : ReqTraffic := ⟨false, fun _ => ⟨true, true, false, false, false, false, false, false⟩, ⟨true, none, bitsAny⟩⟩
+    DocValid op = true ∧ ExclOp op = false ∧ UncopyableReq op t = false ∧ UnencodableReq op t = true ∧
+    validateRequest op t = .err false ∧ (errorText true (validateRequest op t)).bad = true := by decide
+
+/-- witness F-C10-8: `GET /a?p[b][2000000000]=1`, p a deepObject parameter with an array property b — valid
+    document, and `ValidateRequest` builds two thousand million elements for a 27-byte query -/
+theorem huge_index_witness :
+    let op : OpM := ⟨[⟨false, true, false, false, some sOK, false, 0, none⟩], none, []⟩
+    let t : ReqTraffic := ⟨false, fun _ => ⟨true, false, false, false, false, true, true, false⟩, ⟨true, none, bitsAny⟩⟩
+    DocValid op = true ∧ ExclOp op = false ∧ UncopyableReq op t = false ∧ HugeIndexReq op t = true ∧
+    validateRequest op t = .exhaust := by decide
+
+/-- witness F-C10-7: `POST /a`, `Content-Type: application/yaml`, body `~: 1` against `{oneOf: [{type: object}]}` —
+    valid document without reference cycles, `ValidateRequest` itself panics (in `deepcopy.Copy`) -/
+theorem uncopyable_key_witness :
+    let op : OpM := ⟨[], some ⟨false, false, [⟨some sOK⟩]⟩, []⟩
+    let t : ReqTraffic := ⟨false, fun _ => bitsAny, ⟨false, some 0, ⟨true, false, false, false, false, true, false, true⟩⟩⟩
+    DocValid op = true ∧ ExclOp op = false ∧ UncopyableReq op t = true ∧ (validateRequest op t).bad = true := by decide
 
 /-- what the document gate is needed for: an unresolved reference panics -/
 theorem unresolved_ref_panics :
@@ -431,9 +571,12 @@ def opEx : OpM :=
 /-- non-vacuity: a non-trivial operation (styled, content-defined and schema-less parameters, a body with
     two media types, a response with a content-defined and a schema-defined header) satisfies the hypotheses -/
 example : DocValid opEx = true ∧ ExclOp opEx = false := by decide
-example : validateRequest opEx ⟨fun _ => bitsAny, ⟨false, some 0, bitsAny⟩⟩ = .err := by decide
-example : validateResponse opEx ⟨false, some 0, fun _ => ⟨true, false, false, false, true⟩, false,
-    ⟨false, some 0, ⟨true, false, false, false, true⟩⟩⟩ = .ok := by decide
+example : validateRequest opEx ⟨false, fun _ => bitsAny, ⟨false, some 0, bitsAny⟩⟩ = .err true := by decide
+example : UnencodableReq opEx ⟨true, fun _ => bitsAny, ⟨false, some 0, bitsAny⟩⟩ = false := by decide
+example : validateResponse opEx ⟨false, some 0, fun _ => ⟨true, false, false, false, true, true, false, false⟩, false,
+    ⟨false, some 0, ⟨true, false, false, false, true, true, false, false⟩⟩⟩ = .ok := by decide
+example : HugeIndexReq opEx ⟨true, fun _ => bitsAny, ⟨false, some 0, bitsAny⟩⟩ = false := by decide
+example : UncopyableReq opEx ⟨true, fun _ => bitsAny, ⟨false, some 0, bitsAny⟩⟩ = false := by decide
 example : ErrWF ⟨true, .schema [⟨true, false⟩, ⟨false, true⟩]⟩ = true := by decide
 theorem convert_enum_without_schema_panics : (convertErrors ⟨true, .schema [⟨true, true⟩]⟩).bad = true := by decide
 
